@@ -69,32 +69,33 @@ def model_check(ctx, cov, workers):
         [("mc/HashTables_quick.cfg", 1800), ("mc/HashTables_thorough.cfg", 3000),
          ("mc/HashTables_thorough2.cfg", 3000), ("mc/HashTables_full.cfg", 3000)]
     states = trans = 0
-    for cfg, to in cfgs:
-        r = tlc.run_tlc("MCHashTables", cfg, workers=workers, timeout=to, name=f"c08.{Path(cfg).stem}.{ctx.seed}")
-        runs.append({"cfg": cfg, **r.summary()})
-        if r.timed_out:
-            if ctx.quick:
-                raise ToolError(f"model check {cfg} timed out after {to}s ({r.distinct} states)")
-            log(f"{cfg}: timed out after {to}s with {r.distinct} distinct states (counted as partial)")
-            states += r.distinct
-            trans += r.generated
-            continue
-        if not r.ok:
-            # the model of wild's construction violates the property: a statement about the
-            # transcription until reproduced against the binary (part 2 does that) -> tool error
-            raise ToolError(f"HashTables model check failed ({cfg}): {r.violated} {r.error_text}\n{r.trace_text[:3000]}")
-        missing = tlc.zero_coverage_actions(r, ["AddName", "AddDup"])
-        if missing:
-            raise ToolError(f"vacuous model run {cfg}: actions never taken: {missing}")
-        states += r.distinct
-        trans += r.generated
 
     def broken(v):
-        return v, tlc.run_tlc("MCHashTables", f"mc/HashTables_broken_{v}.cfg", workers=2, timeout=900, coverage=False,
+        return v, tlc.run_tlc("MCHashTables", f"mc/HashTables_broken_{v}.cfg", workers=1, timeout=900, coverage=False,
                               name=f"c08.broken.{v}.{ctx.seed}")
 
-    with ThreadPoolExecutor(max_workers=3) as ex:
-        for v, r in ex.map(broken, BROKEN):
+    with ThreadPoolExecutor(max_workers=2) as ex:
+        broken_results = ex.map(broken, BROKEN)        # alongside the main runs
+        for cfg, to in cfgs:
+            r = tlc.run_tlc("MCHashTables", cfg, workers=workers, timeout=to, name=f"c08.{Path(cfg).stem}.{ctx.seed}")
+            runs.append({"cfg": cfg, **r.summary()})
+            if r.timed_out:
+                if ctx.quick:
+                    raise ToolError(f"model check {cfg} timed out after {to}s ({r.distinct} states)")
+                log(f"{cfg}: timed out after {to}s with {r.distinct} distinct states (counted as partial)")
+                states += r.distinct
+                trans += r.generated
+                continue
+            if not r.ok:
+                # the model of wild's construction violates the property: a statement about the
+                # transcription until reproduced against the binary (part 2 does that) -> tool error
+                raise ToolError(f"HashTables model check failed ({cfg}): {r.violated} {r.error_text}\n{r.trace_text[:3000]}")
+            missing = tlc.zero_coverage_actions(r, ["AddName", "AddDup"])
+            if missing:
+                raise ToolError(f"vacuous model run {cfg}: actions never taken: {missing}")
+            states += r.distinct
+            trans += r.generated
+        for v, r in broken_results:
             if r.ok or not r.violated:
                 raise ToolError(f"broken builder '{v}' was NOT rejected by the model: the invariants are vacuous\n{r.out[-1500:]}")
             runs.append({"cfg": f"mc/HashTables_broken_{v}.cfg", "expected_violation": r.violated,
@@ -382,7 +383,7 @@ def run(ctx):
     wild = build_wild()
     with scratch("c08") as d, ThreadPoolExecutor(max_workers=1) as bg:
         # the bounded model runs in the background while the links are generated
-        mc_future = bg.submit(model_check, ctx, cov, 5 if ctx.quick else 6)
+        mc_future = bg.submit(model_check, ctx, cov, 4 if ctx.quick else 5)
         try:
             result = observed(ctx, cov, rng, d, wild)
         finally:
